@@ -447,23 +447,6 @@ def diff_keys(a, b):
     return [k for k in a if a[k] != b.get(k)]
 
 
-def is_s_c07b(spec, before, after):
-    """Structural signature of S-C07b: a NIfTI image with a pending dtype alias; the only
-    difference is the datatype / bitpix fields of the header block."""
-    if not spec.get('alias') or not spec['cls'].startswith('Nifti'):
-        return False
-    if diff_keys(before, after) != ['hdr']:
-        return False
-    import nibabel as nib
-    hc = get_class(spec['cls']).header_class
-    try:
-        h1, h2 = hc(before['hdr']), hc(after['hdr'])
-    except Exception:  # noqa
-        return False
-    changed = [n for n in h1.structarr.dtype.names if h1.structarr[n].tobytes() != h2.structarr[n].tobytes()]
-    return set(changed) <= {'datatype', 'bitpix'} and bool(changed)
-
-
 def written_header_fields(spec, clean_bytes):
     """off/dt/slope/inter/magic of the header block the clean save wrote."""
     cls = spec['cls']
@@ -518,12 +501,8 @@ def run_case(chk, spec, mout, tag):
         # ---- property predicate (model-independent)
         pred = None
         d1 = diff_keys(r['before'], r['after'])
-        known = False
         if d1:
-            if is_s_c07b(spec, r['before'], r['after']):
-                known = True
-            else:
-                pred = f"image changed by a save that {'succeeded' if r['res'] == 'ok' else 'failed (' + r['res'] + ')'}: {d1}"
+            pred = f"image changed by a save that {'succeeded' if r['res'] == 'ok' else 'failed (' + r['res'] + ')'}: {d1}"
         if pred is None and r['res'].startswith('err:other'):
             pred = 'unexpected exception ' + r['res']
         if pred is None and 'retry' in r:
@@ -538,10 +517,6 @@ def run_case(chk, spec, mout, tag):
             d2 = diff_keys(r['after'], r['after_retry'])
             if pred is None and d2:
                 pred = f'image changed by the retry save: {d2}'
-        if known:
-            chk.known('S-C07b', "set_data_dtype('smallest'/'compat'): after a save (successful or failed after alias "
-                      'finalisation) the alias is restored but the header keeps the resolved datatype/bitpix')
-            chk.tagc('S-C07b')
         # ---- correspondence
         d = []
         if mclean is not None:
@@ -567,7 +542,7 @@ def run_case(chk, spec, mout, tag):
                     d.append((f'outcome/calls/final state with call {k} failing', f'{m[0]} n={m[1]} st={m[2]}',
                               f"{r['res']} n={r['n']} st={r['state']}"))
         if pred:
-            report(chk, 'property_violation', case=case, predicate=pred, theorem='C07_fault_preserves_partial',
+            report(chk, 'property_violation', case=case, predicate=pred, theorem='C07_fault_preserves',
                    impl_output={'result': r['res'], 'calls': r['log'][-6:], 'changed': d1},
                    model_output=str(mk.get(k)) if k is not None else ' '.join(mclean[:3]) if mclean else None)
         if d or (dis and k is None):
@@ -647,10 +622,7 @@ def part_histories(chk, specs, nmat):
             m = mout.get(str(hi), '').split()
             pred = None
             d1 = diff_keys(before, after)
-            if d1 and is_s_c07b(spec, before, after):
-                chk.known('S-C07b', "set_data_dtype('smallest'/'compat'): after a save (successful or failed after alias "
-                          'finalisation) the alias is restored but the header keeps the resolved datatype/bitpix')
-            elif d1:
+            if d1:
                 pred = f'step {j}: image changed by a save ({res}): {d1}'
             if pred is None and j == len(steps) - 1:
                 fresh = attempt(spec, None, healthy_after=False)
@@ -809,11 +781,8 @@ def part_devfull(chk, nmat):
         chk.tagc('outcome:devfull_' + res)
         d1 = diff_keys(before, after)
         pred = None
-        if d1 and not is_s_c07b(spec, before, after):
+        if d1:
             pred = f'image changed by a save that failed on /dev/full ({res}): {d1}'
-        elif d1:
-            chk.known('S-C07b', "set_data_dtype('smallest'/'compat'): after a save (successful or failed after alias "
-                      'finalisation) the alias is restored but the header keeps the resolved datatype/bitpix')
         m = mout2.get(str(i), '').split()
         dis = None
         if len(m) < 4 or (m[1], m[3][3:]) != (res, st):
@@ -821,7 +790,7 @@ def part_devfull(chk, nmat):
             dis = ('outcome/final state with the close of the /dev/full destination failing', ' '.join(m[:4]), f'{res} st={st}')
         if pred:
             report(chk, 'property_violation', case={'devfull': {'spec': spec, 'bad': bad}}, predicate=pred,
-                   theorem='C07_fault_preserves_partial')
+                   theorem='C07_fault_preserves')
         if dis:
             chk.disagreements += 1
             if not pred:
@@ -884,11 +853,7 @@ def run(chk: Check):
     part_devfull(chk, nmat)
     part_compressed(chk)
     part_vm(chk, lines)
-    chk.extra['unproved_statements'] = [
-        'C07_success_preserves / C07_fault_preserves for a state with a pending dtype alias that resolves to a type '
-        'other than the header datatype: FALSE of the faithful model (C07_success_preserves_refuted, '
-        'C07_fault_preserves_refuted = finding S-C07b); proved with the guard alias_stable (…_partial) and, unguarded, '
-        'C07_final_state (everything but the header datatype preserved)']
+    chk.extra['unproved_statements'] = []
 
 
 def part_vm(chk, lines):
@@ -964,13 +929,12 @@ def _replay(chk, obj):
         r = attempt(spec, c.get('k'))
         clean = attempt(spec, None, healthy_after=False)
         d1 = diff_keys(r['before'], r['after'])
-        known = bool(d1) and is_s_c07b(spec, r['before'], r['after'])
-        bad = bool(d1) and not known
+        bad = bool(d1)
         if 'retry' in r and clean['res'] == 'ok' and (r['retry'][0] != 'ok' or r['retry'][1] != clean['bytes']):
             bad = True
         if diff_keys(r['after'], r['after_retry']):
             bad = True
-        print({'k': c.get('k'), 'result': r['res'], 'calls': r['log'][-6:], 'changed': d1, 'known_S-C07b': known,
+        print({'k': c.get('k'), 'result': r['res'], 'calls': r['log'][-6:], 'changed': d1,
                'retry': r['retry'][0], 'retry_bytes_equal_fresh': r['retry'][1] == clean['bytes'] if clean['res'] == 'ok' else None})
         print('property fails on this case' if bad else 'property holds on this case')
         return 1 if bad else 0
@@ -1001,7 +965,7 @@ def _replay(chk, obj):
         except Exception as e:  # noqa
             res = exc_enum(e)
         d1 = diff_keys(before, snapshot(img))
-        badp = bool(d1) and not is_s_c07b(spec, before, snapshot(img))
+        badp = bool(d1)
         print({'result': res, 'changed': d1})
         print('property fails on this case' if badp else 'property holds on this case')
         return 1 if badp else 0
@@ -1023,7 +987,7 @@ def _replay(chk, obj):
                 res = exc_enum(e)
             d1 = diff_keys(before, snapshot(img))
             print({'override': ov, 'k': k, 'result': res, 'changed': d1})
-            if d1 and not is_s_c07b(spec, before, snapshot(img)):
+            if d1:
                 bad = True
         print('property fails on this case' if bad else 'property holds on this case')
         return 1 if bad else 0
